@@ -1,4 +1,5 @@
-"""C19 -- mission-design helpers are consistent with the dynamics they target (DESIGN.md section C19; Lambert is outside)."""
+"""C19 -- mission-design helpers are consistent with the dynamics they target (DESIGN.md section C19; of Lambert: exit test,
+Lagrange-coefficient velocities and the time-of-flight equation -- convergence of the Newton iteration is outside)."""
 import importlib
 import math
 import types
@@ -6,6 +7,7 @@ import types
 import numpy as np
 import z3
 
+from harness import c19l
 from symx import core, dtmodel
 from symx.case import Case, Holds, Ang, run_cases, replay_cases
 from symx.core import R, CTX, SB, var, PI
@@ -16,12 +18,17 @@ PROPERTY = "C19"
 FUNCS = ["beyond.utils.ltan:raan2ltan", "beyond.utils.ltan:ltan2raan", "beyond.utils.constellation:WalkerStar.per_plane",
          "beyond.utils.constellation:WalkerStar.raan", "beyond.utils.constellation:WalkerStar.nu",
          "beyond.utils.constellation:WalkerDelta.raan", "beyond.utils.constellation:WalkerDelta.nu", "beyond.utils.beta:beta",
-         "beyond.utils.interplanetary:bplane", "beyond.utils.leo:sso", "beyond.utils.leo:frozen"]
+         "beyond.utils.interplanetary:bplane", "beyond.utils.leo:sso", "beyond.utils.leo:frozen",
+         "beyond.utils.lambert:_lambert", "beyond.utils.lambert:_F", "beyond.utils.lambert:_y", "beyond.utils.lambert:_C",
+         "beyond.utils.lambert:_S"]
 STUBS = ["sun right ascension (ltan._mean_sun_raan / _true_sun_raan) -> one real symbol", "Earth.mu/r/J2/J3 in utils.leo -> positive symbols",
          "orbit -> object-dtype Carrier; orb.infos.kep.a for bplane -> 1/(2/r - v^2/mu) (vis-viva, the definition)",
-         "reference body of beta() -> object returning a symbolic position"]
+         "reference body of beta() -> object returning a symbolic position",
+         "lambert/exit: _F -> arbitrary reals (one symbol per evaluation), _dF -> 1, _y -> a positive symbol; lambert/velocities: "
+         "_y -> a positive symbol, geometry r0 = (a,0,0), r1 = b (cos phi, sin phi, 0)"]
 ASSUMPTIONS = ["exact reals", "hyperbolic state for the B-plane (e > 1), S not along the ecliptic pole"]
-OUTSIDE = ["Lambert solver (bracketing + Newton on Stumpff functions: transcendental, no decision procedure)",
+OUTSIDE = ["convergence of the Lambert Newton iteration on the Stumpff functions and the bracketing loop (transcendental, no decision "
+           "procedure): decided are the exit test, the velocity construction and the transcription of the time-of-flight equation",
            "sso_frozen fixed-point iteration", "numeric value of the mean solar rate constant"]
 
 
@@ -278,7 +285,7 @@ def frozen_case():
 
 def all_cases(tier):
     return [ltan_case("mean"), ltan_case("true"), walker_case("WalkerStar"), walker_case("WalkerDelta"), beta_case(), bplane_case(),
-            sso_case(), frozen_case()]
+            sso_case(), frozen_case()] + c19l.cases(tier)
 
 
 def groups(tier):
